@@ -73,7 +73,7 @@ def plan(pid, tier):
         "C12": [job("C12", "race", timeout=1500, parts=6), job("C12", "ptr", arg="bulk", timeout=1500, parts=6)],
         "C16": [job("C16", "ptr", timeout=1500, parts=6)],
         "C18": [job("C18", "ptr", timeout=1800, parts=8 if T else 2)],
-        "C19": [job("C19", "ptr", timeout=900, parts=4 if T else 2)] + ([job("C19", "asan", timeout=900, parts=2)] if T else []),
+        "C19": [job("C19", "ptr", timeout=900, parts=4 if T else 2)] + ([job("C19", "asan", arg="asan", timeout=900, parts=2)] if T else []),
         "C20": [job("C20", "ptr", timeout=600)],
     }
     return P.get(pid)
